@@ -34,7 +34,8 @@ LocaleClauses(e) ==
 OtherClauses(e) ==   \* import of the package, parse of a UTF-8 file with non-ASCII text, to_string
   [ante |-> [C17_runs |-> TRUE, C19_quiet |-> TRUE], holds |-> [C17_runs |-> e.res.ok, C19_quiet |-> Quiet(e.res)]]
 
-Drift(e) == e.op = "write" /\ e.effects # EffectsOf("validate-first", e.fail # 0, e.prior = "isdir")
+SerFault == 11     \* the fault scenario in which every check passes but producing the text raises
+Drift(e) == e.op = "write" /\ e.effects # EffectsOf("validate-first", e.fail # 0 /\ e.fail # SerFault, e.fail = SerFault, e.prior = "isdir")
 
 AllClauses == {"C17_aon", "C17_declared", "C17_mustfail", "C17_mustwork", "C17_locale", "C17_runs", "C19_class", "C19_quiet"}
 VARIABLES i, cnt
